@@ -137,6 +137,12 @@ func checkC09(c *Ctx) {
 	c.c09NoBlock(pm)
 	c.c09File(pm)
 	c.c09El(pm)
+	// the retention visit takes part in the linearisation only if what it does to the store
+	// is a set of removals by id of the messages it tested (decided by C12's scan rule): a
+	// bulk operation acts on whatever the mailbox holds later, which no sequential order of
+	// the visit and a concurrent delivery explains
+	nB := c.borrow(checkC12, "C12/GUARD/expired/scan-store-calls", "C09/RETENTION/by-id", "the retention visit changes the store only through RemoveMessage of the messages whose age it tested")
+	r.Floor("C09/RETENTION/by-id", "borrowed obligations", nB, 1)
 }
 
 // closureModes: closures passed to withMailbox → writeLock constant (true/false) or "?"
@@ -350,6 +356,28 @@ func (c *Ctx) c09Mem(pm *pairModel) {
 				for g := fn; g != nil; g = g.Parent() {
 					if _, ok := modes[g]; ok {
 						in2 = true // mode "?"
+					}
+				}
+			}
+			if !in2 && fn == withMailbox && alwaysHeld(fn, in, mbOps, mbOps.isAcq) {
+				in2 = true // withMailbox itself, between taking and releasing the mailbox lock
+			}
+			if !in2 && fn.Parent() == withMailbox {
+				// the deferred closure of withMailbox that releases the mailbox lock: the lock
+				// is held from its start up to the release
+				for _, d := range eng.Defers(withMailbox) {
+					mc, ok := d.Call.Value.(*ssa.MakeClosure)
+					if !ok || mc.Fn != ssa.Value(fn) || !alwaysHeld(withMailbox, d, mbOps, mbOps.isAcq) {
+						continue
+					}
+					afterRel := false
+					eng.EachInstr(fn, func(x ssa.Instruction) {
+						if mbOps.isRel(x) && (&eng.Search{Target: func(y ssa.Instruction) bool { return y == in }}).After(x) != nil {
+							afterRel = true
+						}
+					})
+					if !afterRel {
+						in2 = true
 					}
 				}
 			}
